@@ -6,7 +6,7 @@ ROOT = os.path.dirname(os.path.dirname(os.path.abspath(__file__)))
 # id -> (category, technique, level text, level note, design ref)
 CHECKS = {
  "C01": ("exploration", "exhaustive counting monitor: all 2^32 raw words through the real bounded draw per panel bound (scripted crypto/rand.Reader), plus boundary-probe scout with escalation",
-         "For each bound of a panel all 2^32 raw words are fed to the real randomUint32n and counted per alternative (equal counts, >half accepted, results < n); thousands of further bounds are probed at boundary words, model deviations are escalated to an exhaustive count. Exhaustive in the raw word, sampled in the bound.",
+         "For each bound of a panel all 2^32 raw words are fed to the real randomUint32n and counted per alternative (equal counts, >half accepted, results < n); thousands of further bounds are probed at boundary words, with 1-4 rejected words in a row, with the word delivered in 1-3 byte chunks and with a complete draw of another bound interposed while the first waits in the source; model deviations are escalated to an exhaustive count; complete decision trees of small recipes of both kinds check the generator-level clause (every pick of one of n alternatives). Exhaustive in the raw word, sampled in the bound.",
          "Trusts Go 1.23's crypto/rand.Read = io.ReadFull(rand.Reader) (GOTOOLCHAIN=local) and the verif wrapper VerifRandomUint32n being a plain call of randomUint32n.", "4/C01"),
  "C02": ("exploration", "execution-tree explorer over the real Generate under a scripted entropy tape; exact output masses vs brute-force reference set; slice monitors",
          "Exact output distribution of the real CharRecipe.Generate observed over the complete decision tree of draw indices for hundreds (quick) / thousands (thorough) of small hostile recipes, compared with an independent enumeration of the valid strings; realistic recipes are covered by slices that force every alphabet index at every position. Sampled in the recipe, exhaustive in the random stream within each explored cell.",
@@ -18,7 +18,7 @@ CHECKS = {
          "Exact joint distribution of tokens over complete decision trees of small wordlist recipes compared with the product of uniform word draws, the scheme's capitalisation law and the separator function's measured distribution; large lists (AgileWords, AgileSyllables, 1000-20000 words) are slice-checked: every word index at every position.",
          "Modulo C01; premise of the property (no two kept words share a title form) enforced by the generator/filter.", "4/C04"),
  "C05": ("exploration", "online structural assertion on every wordlist password (tree leaves, forced boundary scripts, OS randomness) with recorded separator-function returns",
-         "Tokens/String/Atoms/Separators of every observed wordlist password are checked against kept words, scheme positions and the separators the function actually returned.",
+         "Tokens/String/Atoms/Separators of every observed wordlist password (lengths to 80, both separator fields set, unknown scheme strings, failing separator recipes) are checked against kept words, scheme positions and the separators the function actually returned; passwords returned earlier are re-inspected after further generations from the same list.",
          "Separator returns recorded by a wrapper around the real function; strings.Title as the title-casing. One open known finding (lists containing the empty string).", "4/C05"),
  "C06": ("exploration", "execution-tree explorer: exact probability of every output vs 2^-Entropy(); Password.Entropy compared bitwise on every leaf",
          "For hundreds/thousands of small recipes of both kinds the exact mass of every output is compared with the reported entropy (bound, and equality with the min-entropy on resolved trees).",
@@ -27,16 +27,16 @@ CHECKS = {
          "Tens of thousands (quick) / hundreds of thousands (thorough) of generated recipes in every overlap pattern with 0-8 required sets and lengths to 4096 are compared exactly (integer count) and to float32 precision (entropy).",
          "Trusts the verif hook VerifCount (buildCharacterList + n()) and math/big.", "4/C07"),
  "C08": ("exploration", "reference-formula monitor plus determinism monitor over 64 in-process constructions/permutations and 4 fresh child processes per input",
-         "Entropy() of generated wordlist recipes is compared with the documented formula and must be bit-identical over repeated constructions, permutations, repetitions and processes.",
+         "Entropy() of generated wordlist recipes (lengths to 3000) is compared with the documented formula and must be bit-identical over repeated constructions, permutations, repetitions and processes; recipes sharing one *WordList with different separator functions are evaluated in both orders, also after an excursion of the retry knobs during which every separator recipe is refused.",
          "Separator entropy taken as what the separator function declares (observed).", "4/C08"),
  "C10": ("exploration", "reference-normalisation monitor; kept words read out through Generate with index scripts; before/after snapshot of the caller's slice; 64 constructions per input",
-         "Thousands of hostile inputs (twins, chains, digraphs, caseless, empty string, duplicates) x 64 constructions/permutations each, plus both shipped lists, compared with the reference normalisation.",
+         "Thousands of hostile inputs (twins, chains, digraphs, Georgian, long s, inner word boundaries, caseless, empty string, duplicates, inputs concatenating to the same bytes) x 64 constructions/permutations each, plus both shipped lists, compared with the reference normalisation; the caller's slice is overwritten afterwards and the list read out again (no aliasing).",
          "strings.Title as the title-casing; list order read out through the public API.", "4/C10"),
  "C11": ("exploration", "round-trip monitor MakeIndices -> Tokenize on generated and Tokenize-constructed token sequences vs the documented size rule",
          "Tens of thousands of passwords from hostile character and wordlist recipes (non-ASCII, 254/255/256-character words, byte length > 255 with <= 255 characters) and sequences only Tokenize can construct are round-tripped and their index size checked.",
          "Token length counted in characters.", "4/C11"),
  "C12": ("exploration", "total-function monitor: Tokenize on ~1M (quick) / 20M (thorough) hostile (string, index, entropy) triples vs a decoder specification; panics recovered and judged",
-         "Every index length 0..12 in both parities, every kind byte, biased bodies, mutated valid indices, invalid UTF-8 and long strings; each result compared with the decoder specification.",
+         "Every index length 0..12 in both parities, every kind byte, biased bodies, mutated valid indices, invalid UTF-8 and long strings; each result compared with the decoder specification; the same monitor under 8 concurrent callers.",
          "Decoder specification in harness/oracle (RefTokenize).", "4/C12"),
  "C13": ("exploration", "reference-model monitor for refusal (exact rational success probability vs threshold), scripted all-attempts-fail and recover-after-k-failures streams, malformed recipe shapes",
          "Thousands of recipes around the refusal threshold under default and modified knobs: refusal and acceptance directions on scripted streams, SuccessProbability() vs the exact fraction, attempt budget, no panic on any malformed recipe shape of either kind.",
@@ -45,19 +45,19 @@ CHECKS = {
          "For every sampled generation of both recipe kinds a failure is injected at every individual read of the random source with 0..3 bytes delivered (once, and sticky); no password may be returned and reading must stop. Chunked delivery, tape-determinism across goroutines and fresh processes, support over complete cells, and the opgen binary under strace (getrandom counted, k-th kernel entropy read failed) complete the picture.",
          "Go 1.23 semantics of crypto/rand.Read (io.ReadFull over the replaceable rand.Reader), pinned by GOTOOLCHAIN=local. strace when= is per thread: only runs whose log shows the injected failure and blocked fallback are judged.", "4/C09"),
  "C14": ("exploration", "Go race detector (-race build of the harness) over stress scenarios with injected scheduling points at every entropy read; concurrent results validated by the recipe oracles; report blocks counted and de-duplicated by spg entry-point pair",
-         "8 sharing scenarios x G in {4,16,64} goroutines x 5/40 repetitions under the race detector; zero reports with spg frames and every concurrent password valid with the single-threaded entropy.",
+         "8 sharing scenarios x G in {4,16,64} goroutines x 5/120 repetitions x 6 rounds on freshly built shared values (no warm-up: first uses happen under concurrency; RequireSets with spare capacity and shared backing arrays) under the race detector; zero reports with spg frames, concurrent callers agree among themselves and with single-threaded references computed afterwards, every concurrent password valid (structure, capitalisation positions, separators).",
          "Covers the interleavings the runs produced (happens-before race detection), not all schedules. GORACE halt_on_error=0 with log files counted by the parent.", "4/C14"),
  "C15": ("exploration", "history monitor: deep before/after snapshots of the whole pool around every call (frame), and replay of every call on a fresh recipe in a fresh process with the same scripted stream (history independence)",
-         "Hundreds/thousands of generated histories of calls and caller-side field updates over pools of recipes sharing lists, separator functions and RequireSets backing arrays.",
+         "Thousands of generated histories of calls, caller-side field updates and knob updates over pools of recipes (incl. field-regrouped siblings, class overlaps, failing separator recipes) sharing lists, separator functions and RequireSets backing arrays; returned passwords re-inspected at the end.",
          "The implementation on the trivial history is the reference; wordlist results compared as choice records.", "4/C15"),
  "C16": ("exploration", "complete enumeration of the finite configuration space with reference tables; execution-tree explorer for the exact distribution of each separator preset; element-wise comparison of shipped lists with testdata files",
-         "Exhaustive: every exported flag/union, all 32 flag subsets, constructor defaults, retry-budget defaults, all 7 presets (every output and its exact probability), all 28454 list entries.",
+         "Exhaustive: every exported flag/union, all 32 flag subsets, constructor defaults (and independence of two constructor calls), retry-budget defaults, all 7 presets (every output and its exact probability, also after a knob excursion), all 28454 list entries (after the lists were used through NewWordList).",
          "Preset distributions modulo C01. Documented class strings written out in harness/oracle.", "4/C16"),
  "C17": ("exploration", "process-level monitor of the built opgen binary: exit status / stdout / stderr vs an independent flag-word mapping; exact DP membership of the printed line in the recipe's language; library entropy comparison",
          "Thousands of invocations over the documented flag words (both subcommands, all separators, schemes, lists incl. hostile --file lists), the invalid forms and refused recipes.",
          "Flag-word tables from the usage text. Undocumented words, unreadable files and --entropy on refused recipes are outside the statement.", "4/C17"),
  "C18": ("exploration", "output-capture monitor: fd 1/2 (and the logger) redirected around batches of library calls and searched for every secret of the batch (canary alphabets/words: any fragment; realistic: whole passwords and rejected candidates) raw, quoted, hex and base64",
-         "Thousands of generations incl. refused, failing and fault-aborted ones and the diagnostic-printing paths; rejected candidates reconstructed from the tape's draw path.",
+         "Thousands of generations incl. refused, failing, fault-aborted and repeated-stream ones, lowered retry knobs, lists with the empty and with over-long words, the token-index API called on every password, and the diagnostic-printing paths; rejected candidates reconstructed from the tape's draw path; canary alphabets are secret as a whole and canary words down to 8-character windows.",
          "The library can only write through fd 1, fd 2 or the standard logger; capture shown non-empty in the evidence.", "4/C18"),
 }
 PENDING = {}
